@@ -73,6 +73,7 @@ type GhostDecl struct {
 }
 
 type TypeContract struct {
+	Valid     []*Clause // representation validity established by the constructor (assumed for receivers)
 	Pkg       string
 	Name      string
 	GuardedBy map[string]string // field -> mutex field
@@ -185,7 +186,7 @@ func stripComment(s string) string {
 }
 
 var clauseKeywords = map[string]bool{"requires": true, "ensures": true, "modifies": true, "loop": true, "invariant": true, "at": true, "assumes": true,
-	"thread": true, "exit": true, "chaninv": true, "guarded_by": true, "lockinv": true, "ghost": true, "trusted": true, "shared_atomics": true, "decreases": true}
+	"thread": true, "exit": true, "valid": true, "chaninv": true, "guarded_by": true, "lockinv": true, "ghost": true, "trusted": true, "shared_atomics": true, "decreases": true}
 
 func (db *ContractDB) errf(file string, line int, format string, args ...interface{}) {
 	db.errors = append(db.errors, fmt.Sprintf("%s:%d: %s", file, line, fmt.Sprintf(format, args...)))
@@ -393,6 +394,13 @@ func (db *ContractDB) parseLines(p *packages.Package, file string, lines []srcLi
 			mu := strings.TrimSpace(rest[:i])
 			for _, f := range strings.Split(rest[i+1:], ",") {
 				curType.GuardedBy[strings.TrimSpace(f)] = mu
+			}
+		case "valid":
+			if curType == nil {
+				continue
+			}
+			if c := mk("valid", rest); c != nil {
+				curType.Valid = append(curType.Valid, c)
 			}
 		case "lockinv":
 			if curType == nil {
